@@ -87,7 +87,23 @@ T_Sizes == /\ Ev("Sizes") /\ UNCHANGED <<vars, started>>
 T_Connected == Ev("Connected") /\ UNCHANGED <<vars, started>> /\ feOpen = E.b
 T_OnDisconnect == /\ Ev("OnDisconnect") /\ UNCHANGED <<vars, started>> /\ ~feOpen
                   /\ IF cause = None THEN E.res.k = "placeholder" ELSE E.res.k = "restart" /\ E.res.cause = cause.e
-T_Noop == (Ev("TransportCloseStart") \/ Ev("TransportCloseEnd")) /\ UNCHANGED <<vars, started>>
+(* back-pressure on the transport (the send task stays inside one `send().await`) needs no model step: the send task simply *)
+(* takes none for a while                                                                                                  *)
+T_Noop == (Ev("TransportCloseStart") \/ Ev("TransportCloseEnd") \/ Ev("Hold") \/ Ev("Release")) /\ UNCHANGED <<vars, started>>
+
+(* `Quiet`: the harness has released any back-pressure and granted the client so many scheduler turns that every one of its   *)
+(* tasks is parked.  The model must then have no step of the client left either: whatever the design says the client does      *)
+(* on its own - forward a close request, write an unsubscribe, complete a call whose response was consumed, notice a fault    *)
+(* and run the whole shutdown hand-over - has happened.  This is how the "eventually" parts of C05, C09 and C18 are decided  *)
+(* on finite traces.                                                                                                         *)
+ClientCanStep ==
+  \/ \E h \in started : ENABLED FeAlloc(h) \/ ENABLED FeEnqueue(h) \/ fe[h].st = "ready"
+  \/ ENABLED StRecv \/ ENABLED RtRecv \/ ENABLED RtForward
+  \/ \E h \in Subs : ENABLED SubUnsubEnqueue(h) \/ ENABLED SubDrainOne(h)
+  \/ ENABLED StSendFails \/ ENABLED RtRecvFails
+  \/ ENABLED StNoticeClosed \/ ENABLED RtNoticeClosed \/ ENABLED RtHandOver \/ ENABLED StCloseFront \/ ENABLED StHandOver
+  \/ ENABLED StEnd \/ ENABLED WdRecv \/ ENABLED ManagerDrop
+T_Quiet == Ev("Quiet") /\ UNCHANGED <<vars, started>> /\ ~ClientCanStep
 (* the scenario is over: the connection has ended, so nothing may still be pending *)
 T_End == /\ Ev("End") /\ UNCHANGED <<vars, started>>
          /\ \A h \in started : fe[h].st = "done"
@@ -104,7 +120,7 @@ Silent ==
 
 TNext == T_Reset \/ T_FeStart \/ T_WireOut \/ T_PeerSend \/ T_WireIn \/ T_FeDone \/ T_SubNext \/ T_SubEnd \/ T_SubUnsub
          \/ T_SubUnsubDone \/ T_SubDrop \/ T_Fault \/ T_SendFault \/ T_RecvFault \/ T_Sizes \/ T_Connected \/ T_OnDisconnect
-         \/ T_Noop \/ T_End \/ Silent
+         \/ T_Noop \/ T_Quiet \/ T_End \/ Silent
 TSpec == TInit /\ [][TNext]_tvars
 
 (* ---- acceptance: the highest line reached is kept in a TLC register (needs -workers 1) ---- *)
